@@ -29,8 +29,39 @@ PARK_POINTS = ["fw_begin", "fl_dir_created", "fl_index_entry_added", "fw_flushed
                "fw_passive_cleared", "fw_wal_cleaned"]
 
 
+RD_SETUP_POINTS = ["rd_plan_built", "rd_ctx_built", "rd_scan_start"]
+
+
 def corpus():
     return base.corpus_for(PROP)
+
+
+def large_cases(rng, tier):
+    """Oracle-only engine scripts at a scale no model run can follow: a selection of more than 65 536 rows
+    (and more than 4096 per segment) issued while the newest rotated memtable is in its flush window (files
+    written and scanned through the in-flight marker, passive copy not yet released), so that tens of
+    thousands of rows lie between the two copies of an event.  Every applied event must be returned once."""
+    out = []
+    for j in range(1 if tier == "quick" else 4):
+        per = rng.choice([17000, 18000]) if j == 0 else rng.choice([9000, 23000, 35000])
+        older = 4 if j == 0 else rng.range(2, 8)
+        cfg = {"fill_factor": per // 1000, "event_per_zone": 1000, "shards": 1}
+        point = "fw_flushed" if j == 0 else rng.choice(["fw_flushed", "fw_verified", "fw_published"])
+        script = [("cmd", 'DEFINE t0 FIELDS { k: "int" }')]
+        k = 0
+        for _ in range(older * per):
+            k += 1
+            script.append(("raw", f'STORE t0 FOR c{k % 7:02d} PAYLOAD {{"k": {k}}}'))
+        script += [("quiesce",), ("raw", f"!park {point}")]
+        for _ in range(per):
+            k += 1
+            script.append(("raw", f'STORE t0 FOR c{k % 7:02d} PAYLOAD {{"k": {k}}}'))
+        script += [("raw", f"!wait_parked {point} 20000"), ("cmd", "QUERY t0 RETURN [k]"),
+                   ("raw", f"!release {point}"), ("quiesce",), ("cmd", "QUERY t0 RETURN [k]")]
+        out.append({"kind": "large", "cfg": cfg, "script": [list(x) for x in script], "n": k, "point": point,
+                    "show": f"large: {older} x {per} events flushed, {per} more with the flush parked at {point}; "
+                            f"QUERY t0 RETURN [k] while parked and after release ({k} events)"})
+    return out
 
 
 def cases(rng, tier):
@@ -51,6 +82,23 @@ def cases(rng, tier):
             ops += [("RELEASE", "rd_passive_locked"), ("JOIN",), ("OP", "fw_begin"), ("OP", "fw_begin")]
             ops += [("RELEASE", "fw_begin"), ("SETTLE",), ("O",)]
             out.append(shardprop.mk_case("reader-holds-passive", cfg, ntypes, nctx, ops))
+        elif i % 12 == 7 or (tier != "quick" and i % 12 == 1):
+            # a read parked in the middle of its set-up (before the plan is built / after the plan, before the
+            # passive snapshot / after the snapshot) while the flush of the rotated memtable runs from start to
+            # finish (files, index, publication, passive release, marker removal): the read resumes afterwards
+            # and must still return every applied event once
+            cap = cfg["fill_factor"] * cfg["event_per_zone"]
+            u = rng.below(ntypes)
+            point = RD_SETUP_POINTS[(i // 12) % len(RD_SETUP_POINTS)] if tier == "quick" else rng.choice(RD_SETUP_POINTS)
+            ops = []
+            if rng.chance(1, 2):
+                ops += [("S", rng.below(ntypes), rng.below(nctx)) for _ in range(cap)]
+            ops += [("PARK", "fw_begin")]
+            ops += [("SN", u if j == 0 else rng.below(ntypes), rng.below(nctx)) for j in range(cap)] + [("WAITP", "fw_begin")]
+            ops += [("PARK", point), ("BGQ", u), ("WAITP", point), ("MARKHITS", "fw_wal_cleaned")]
+            ops += [("RELEASE", "fw_begin"), ("WAITMORE", "fw_wal_cleaned", 1)]
+            ops += [("RELEASE", point), ("JOIN",), ("SETTLE",), ("O",)]
+            out.append(shardprop.mk_case("reader-mid-setup", cfg, ntypes, nctx, ops))
         elif i % 12 == 10:
             # a flush that fails (a file blocks the segment directory): the passive copy stays the only
             # readable copy and must keep being read; no model prediction for the failed flush (oracle only)
@@ -84,13 +132,39 @@ def cases(rng, tier):
         else:
             ops = shardprop.gen_history(rng, rng.range(6, 22), ntypes, nctx, p_restart=0)
             out.append(shardprop.mk_case("history", cfg, ntypes, nctx, ops))
-    return out
+    return out + large_cases(rng.fork("large"), tier)
 
 
-run_sides = shardprop.run_sides
+def run_sides(cases_, model_ok):
+    from props import englib
+    sh = [c for c in cases_ if c.get("kind") != "large"]
+    lg = [c for c in cases_ if c.get("kind") == "large"]
+    si, sm = shardprop.run_sides(sh, model_ok) if sh else ([], [])
+    li = []
+    for c in lg:
+        r = englib.run_script(c)
+        # keep only what the oracle needs (the row lists are large)
+        qs = [x for x in r.get("res", []) if x is not None]
+        brief = []
+        for x in qs[-2:]:
+            ks = [row.get("k") for row in (x.get("rows") or [])]
+            brief.append({"status": x.get("status"), "rows": len(ks), "distinct": len(set(ks)),
+                          "missing": sorted(set(range(1, c["n"] + 1)) - set(ks))[:10],
+                          "repeated": sorted(k for k, n in __import__("collections").Counter(ks).items() if n > 1)[:10]})
+        li.append({"ok": r.get("ok"), "err": r.get("err"), "reads": brief, "line": "large", "obs": []})
+    it_s, it_m, it_l = iter(si), iter(sm), iter(li)
+    impl, model = [], []
+    for c in cases_:
+        if c.get("kind") == "large":
+            impl.append(next(it_l)); model.append(None)
+        else:
+            impl.append(next(it_s)); model.append(next(it_m))
+    return impl, model
 
 
 def diffs(c, impl, model):
+    if c.get("kind") == "large":
+        return []
     d = shardprop.diffs(c, impl, model)
     if c.get("kind") == "flush-fails":
         return []
@@ -107,8 +181,25 @@ def same(c, impl, model):
 
 
 def oracle(c, impl):
+    if c.get("kind") == "large":
+        if not impl.get("ok"):
+            return "engine harness: " + str(impl.get("err"))
+        for which, rd in zip(("while the flush is parked at " + c["point"], "after the flush completed"), impl["reads"]):
+            if rd["status"] != 200 or rd["rows"] != c["n"] or rd["distinct"] != c["n"]:
+                return (f"large selection {which}: {rd['rows']} rows, {rd['distinct']} distinct events, {c['n']} applied "
+                        f"(missing e.g. {rd['missing'][:5]}, repeated e.g. {rd['repeated'][:5]}, status {rd['status']})")
+        return None
     if impl.get("line") is None:
         return None
+    for q in impl.get("bgreads", []):
+        # a read that was in the middle of its set-up while a whole flush ran: every event applied before the read
+        # was issued exactly once
+        got = q.get("rows", [])
+        lost = sorted(set(q["must"]) - set(got))
+        twice = sorted(k for k in set(got) if got.count(k) > 1)
+        if q.get("status") != 200 or lost or twice:
+            return (f"background QUERY t{q['u']} (parked in its set-up while a flush ran to completion) returned {got}, "
+                    f"applied before it was issued {q['must']}: LOST {lost} TWICE {twice} status {q.get('status')}")
     for n, o in enumerate(impl["obs"]):
         exp = shardprop.expected(o, c["ntypes"], c["nctx"])
         for key, v in exp.items():
@@ -143,6 +234,8 @@ def classify(c, impl, model=None):
 
 
 def nontrivial_key(c, impl):
+    if c.get("kind") == "large":
+        return c["show"] if impl.get("ok") else None
     if impl.get("obs") and any(o["dirs"] for o in impl["obs"]):
         return c["show"]
     return None
